@@ -59,6 +59,7 @@ def fuse_guard_1(ctx: Ctx) -> None:
     fl = flow_of(repo, f)
     g2 = []  # requested arrays stay materialised
     g3 = []  # multi-output producers are not fused
+    g3_loops = []  # … the same guard written as a loop (loop header, test)
     for bn in cfg.stmts(ast.If):
         t = bn.stmt.test
         tt = fl.taint(t, bn.id)
@@ -81,13 +82,41 @@ def fuse_guard_1(ctx: Ctx) -> None:
                                                 ok_all = all(not g.ifs for g in gens)
                 if ok_all:
                     g2.append((bn, pol))
+        succ_q = {f"{A.OPT}.successors_unordered", "method:successors"}
+
+        def calls_succ_(e):
+            return any(isinstance(c, ast.Call) and (repo.callee_quals(c, f) & succ_q or (isinstance(c.func, ast.Attribute) and c.func.attr in ("successors", "out_degree"))) for c in ast.walk(e))
+
+        def over_preds_(it, at):
+            """the iterated collection is every predecessor op: predecessor_ops(...) /
+            predecessor_ops_and_arrays(...), directly or held in a local (`list(...)` of it)"""
+            exprs = [it]
+            if isinstance(it, ast.Name):
+                exprs = [s_.value for s_ in fl.rdefs(it.id, at) if s_.value is not None]
+                if not exprs:
+                    return False
+            for e_ in exprs:
+                if any(isinstance(x, (ast.GeneratorExp, ast.ListComp, ast.SetComp)) and any(g_.ifs for g_ in x.generators) for x in ast.walk(e_)):
+                    return False
+                if any(isinstance(x, ast.Subscript) and isinstance(x.slice, ast.Slice) for x in ast.walk(e_)):
+                    return False
+                if not any(isinstance(c, ast.Call) and repo.callee_quals(c, f) & {f"{A.OPT}.predecessor_ops", POA} for c in ast.walk(e_)):
+                    return False
+            return True
+
         if isinstance(t, ast.Call) and isinstance(t.func, ast.Name) and t.func.id == "any" and t.args and isinstance(t.args[0], (ast.GeneratorExp, ast.ListComp)):
             ge = t.args[0]
-            succ_q = {f"{A.OPT}.successors_unordered", "method:successors"}
-            calls_succ = any(isinstance(c, ast.Call) and (repo.callee_quals(c, f) & succ_q or (isinstance(c.func, ast.Attribute) and c.func.attr in ("successors", "out_degree"))) for c in ast.walk(ge.elt))
-            over_preds = any(isinstance(c, ast.Call) and repo.callee_quals(c, f) & {f"{A.OPT}.predecessor_ops", POA} for c in ast.walk(ge.generators[0].iter)) and not ge.generators[0].ifs
-            if calls_succ and over_preds and _is_multi_test(ge.elt) and _falsy_only(cfg, bn.id, "true"):
+            over_preds = over_preds_(ge.generators[0].iter, bn.id) and not ge.generators[0].ifs
+            if calls_succ_(ge.elt) and over_preds and _is_multi_test(ge.elt) and _falsy_only(cfg, bn.id, "true"):
                 g3.append((bn, True))
+        # the same test as a loop: for pre… in <all predecessors>: if len(successors(pre)) > 1: return False
+        lps = cfg.nodes[bn.id].loops
+        if lps and isinstance(cfg.nodes[lps[-1]].stmt, ast.For) and _is_multi_test(t) and calls_succ_(t) and _falsy_only(cfg, bn.id, "true"):
+            L_ = cfg.nodes[lps[-1]]
+            # the test is the first thing the loop body does (no `continue`/filter before it)
+            direct = not [1 for t2, pol2, b2 in cfg.branch_conditions(bn.id) if cfg.in_loop(b2, L_.id) and b2 != bn.id]
+            if direct and over_preds_(L_.stmt.iter, L_.id):
+                g3_loops.append((L_.id, bn.id))
     truthy = [r for r in cfg.returns() if not is_falsy_return(r)]
     ctx.need(truthy, "can_fuse_predecessors has no truthy return")
     for r in truthy:
@@ -96,6 +125,8 @@ def fuse_guard_1(ctx: Ctx) -> None:
             ("multi-output", g3, "`a predecessor op has more than one output → False` (a multi-output function returns all outputs)"),
         ):
             ok = any(cfg.dominates(bn.id, r.id) and not cfg.can_reach(t, r.id, avoid={bn.id}) for bn, pol in gs for t in cfg.edge_targets(bn.id, "true" if pol else "false"))
+            if not ok and label == "multi-output":
+                ok = any(cfg.dominates(lid, r.id) and not cfg.in_loop(r.id, lid) for lid, _ in g3_loops)
             ctx.ob(
                 f,
                 r.stmt,
@@ -135,7 +166,42 @@ def fuse_guard_1(ctx: Ctx) -> None:
     # consumers of the flag select None for unflagged predecessors
     for q in (CFP, FP_):
         d = repo.get(q)
-        comps = [n for n in d.own_nodes() if isinstance(n, ast.ListComp) and any(isinstance(c, ast.Call) and POA in repo.callee_quals(c, d) for c in ast.walk(n.generators[0].iter)) and "primitive_op" in subscript_keys(n.elt)]
+        dfl, dcfg = flow_of(repo, d), cfg_of(d)
+
+        def from_poa(F: Def, e: ast.AST, at: int, depth: int = 2) -> bool:
+            """`e` is predecessor_ops_and_arrays(...), or a local / a parameter of a private
+            piece of `d` that holds (a list of) it"""
+            if any(isinstance(c, ast.Call) and POA in repo.callee_quals(c, F) for c in ast.walk(e)):
+                return True
+            if isinstance(e, ast.Name) and depth > 0:
+                Ffl = flow_of(repo, F)
+                for s_ in Ffl.rdefs(e.id, at):
+                    if s_.kind == "param" and F is not d:
+                        # what d passes for it
+                        for c in d.own_nodes():
+                            if isinstance(c, ast.Call) and dcfg.has(c) and any(t_.kind == "def" and t_.ref is F for t_ in repo.resolve_call(c, d, d.module)):
+                                pos = F.positional_params
+                                act = {pos[i]: a for i, a in enumerate(c.args) if i < len(pos) and not isinstance(a, ast.Starred)}
+                                act.update({k.arg: k.value for k in c.keywords if k.arg})
+                                if e.id in act and from_poa(d, act[e.id], dcfg.node_of(c), depth - 1):
+                                    return True
+                    elif s_.value is not None and not any(isinstance(x, ast.Subscript) and isinstance(x.slice, ast.Slice) for x in ast.walk(s_.value)) and from_poa(F, s_.value, s_.node, depth - 1):
+                        return True
+            return False
+
+        pieces = [d] + [t_.ref for c in d.own_nodes() if isinstance(c, ast.Call) for t_ in repo.resolve_call(c, d, d.module) if t_.kind == "def" and t_.ref.is_func and t_.ref.module is d.module and t_.ref.name.startswith("_") and t_.ref is not d]
+        comps = []
+        for F in dict.fromkeys(pieces):
+            Fcfg = cfg_of(F)
+            for n in F.own_nodes():
+                if isinstance(n, ast.ListComp) and "primitive_op" in subscript_keys(n.elt):
+                    holder = n
+                    st_node = None
+                    for sx in F.own_nodes():
+                        if isinstance(sx, ast.stmt) and Fcfg.has(sx) and any(y is n for y in ast.walk(sx)):
+                            st_node = Fcfg.node_of(sx)
+                    if st_node is not None and from_poa(F, n.generators[0].iter, st_node):
+                        comps.append(holder)
         ok = bool(comps)
         for c in comps:
             tgt = c.generators[0].target
@@ -183,14 +249,27 @@ def fuse_rewire(ctx: Ctx) -> None:
     f = repo.get(FP_)
     cfg = cfg_of(f)
     fl = flow_of(repo, f)
-    loops = [n for n in cfg.stmts(ast.For) if isinstance(n.stmt.iter, ast.Call) and POA in repo.callee_quals(n.stmt.iter, f)]
+    def poa_call(e: ast.AST, at: int) -> ast.Call | None:
+        """the predecessor_ops_and_arrays(...) call a loop iterates: directly, or through a
+        local that holds it (`predecessors = list(predecessor_ops_and_arrays(dag, name))`)"""
+        if isinstance(e, ast.Call) and POA in repo.callee_quals(e, f):
+            return e
+        if isinstance(e, ast.Call) and isinstance(e.func, ast.Name) and e.func.id in ("list", "tuple") and len(e.args) == 1:
+            return poa_call(e.args[0], at)
+        if isinstance(e, ast.Name):
+            vs = [s_.value for s_ in fl.rdefs(e.id, at)]
+            if len(vs) == 1 and vs[0] is not None:
+                return poa_call(vs[0], at)
+        return None
+
+    loops = [n for n in cfg.stmts(ast.For) if poa_call(n.stmt.iter, n.id) is not None and isinstance(n.stmt.target, ast.Tuple)]
     ctx.need(len(loops) == 1, "re-wiring loop over predecessor_ops_and_arrays not found")
     L = loops[0]
     tgt = L.stmt.target
     ctx.need(isinstance(tgt, ast.Tuple) and len(tgt.elts) == 3, "unexpected loop target")
     pre, inp, flag = (e.id for e in tgt.elts)
     # the loop iterates the *original* dag (the copy is being mutated)
-    it = L.stmt.iter
+    it = poa_call(L.stmt.iter, L.id)
     ok = bool(it.args) and isinstance(it.args[0], ast.Name) and all(s.kind == "param" for s in fl.rdefs(it.args[0].id, L.id))
     ctx.ob(f, L.stmt, ok, "the re-wiring loop reads predecessors from the unmodified input dag", sel="rewire:reads-original")
     rem = [c for c in f.own_nodes() if isinstance(c, ast.Call) and isinstance(c.func, ast.Attribute) and c.func.attr in ("remove_node", "remove_nodes_from")]
@@ -603,10 +682,35 @@ def nest_lazy(ctx: Ctx) -> None:
             ctx.ob(pr, pcfg.nodes[nid].stmt, ok, f"after `{s_.name}` grows by concatenation it is reduced again before the next block is read" + ("" if ok else " — the concatenation is carried across iterations: memory grows with the number of blocks in the group, beyond the two reduced chunks the projection reserves"), sel="stream:bounded-accumulator", props=["C03"])
 
 
+def _is_per_key_lookup(repo: Repo, h: Def, depth: int = 2) -> bool:
+    """h(key, dct, …) maps one key through `dct[key.name](key)` — itself or through a callee
+    of the same shape (the role of _apply_blockwise_key_func_to_chunk_key, whatever it is
+    called)"""
+    hp = h.positional_params
+    if len(hp) < 2 or depth <= 0:
+        return False
+    kp, dp = hp[0], hp[1]
+    for x in h.own_nodes():
+        if not (isinstance(x, ast.Call) and x.args and isinstance(x.args[0], ast.Name) and x.args[0].id == kp):
+            continue
+        if isinstance(x.func, ast.Subscript) and unparse(x.func.value) == dp and unparse(x.func.slice) == f"{kp}.name":
+            return True
+        if len(x.args) >= 2 and isinstance(x.args[1], ast.Name) and x.args[1].id == dp:
+            for t in repo.resolve_call(x, h, h.module):
+                if t.kind == "def" and t.ref.is_func and t.ref is not h and _is_per_key_lookup(repo, t.ref, depth - 1):
+                    return True
+    return False
+
+
 def _per_element_dispatch(repo: Repo, d: Def, seq: str, dct: str, per_key: str, depth: int):
     """Sites in d where elements of parameter `seq` are mapped: yields (ok, node, why)."""
     cfg, fl = cfg_of(d), flow_of(repo, d)
     found = False
+
+    def is_per_key_call(c: ast.Call, scope: Def) -> bool:
+        if per_key in repo.callee_quals(c, scope):
+            return True
+        return any(t.kind == "def" and t.ref.is_func and _is_per_key_lookup(repo, t.ref) for t in repo.resolve_call(c, scope, scope.module))
     # comprehension form
     for comp in [n for n in d.own_nodes() if isinstance(n, (ast.ListComp, ast.GeneratorExp))]:
         g = comp.generators[0]
@@ -615,7 +719,7 @@ def _per_element_dispatch(repo: Repo, d: Def, seq: str, dct: str, per_key: str, 
         found = True
         el = g.target.id
         calls = [c for c in ast.walk(comp.elt) if isinstance(c, ast.Call) and c.args and isinstance(c.args[0], ast.Name) and c.args[0].id == el]
-        ok = any(per_key in repo.callee_quals(c, d) and len(c.args) >= 2 and unparse(c.args[1]) == dct for c in calls) or any(isinstance(c.func, ast.Subscript) and unparse(c.func.value) == dct and unparse(c.func.slice) == f"{el}.name" for c in calls)
+        ok = any(is_per_key_call(c, d) and len(c.args) >= 2 and unparse(c.args[1]) == dct for c in calls) or any(isinstance(c.func, ast.Subscript) and unparse(c.func.value) == dct and unparse(c.func.slice) == f"{el}.name" for c in calls)
         if not ok:
             # the per-element work may sit in a local function: [h(a) for a in seq] with
             # def h(a): … per_key(a, dct) …   (dct is the enclosing function's parameter)
@@ -624,7 +728,7 @@ def _per_element_dispatch(repo: Repo, d: Def, seq: str, dct: str, per_key: str, 
                     h = d.children[c.func.id]
                     hp = h.params[0] if h.params else None
                     inner = [x for x in h.own_nodes() if isinstance(x, ast.Call) and x.args and isinstance(x.args[0], ast.Name) and x.args[0].id == hp]
-                    if any(per_key in repo.callee_quals(x, h) and len(x.args) >= 2 and unparse(x.args[1]) == dct for x in inner):
+                    if any(is_per_key_call(x, h) and len(x.args) >= 2 and unparse(x.args[1]) == dct for x in inner):
                         ok = True
         yield ok, comp, "the element is not looked up under its own name"
     # loop form (generator helper)
@@ -637,7 +741,7 @@ def _per_element_dispatch(repo: Repo, d: Def, seq: str, dct: str, per_key: str, 
         apps = [c for c in d.own_nodes() if isinstance(c, ast.Call) and cfg.has(c) and cfg.in_loop(cfg.node_of(c), ln.id) and c.args and isinstance(c.args[0], ast.Name) and c.args[0].id == el and not (isinstance(c.func, ast.Name) and c.func.id in ("isinstance", "len", "str", "repr"))]
         for c in apps:
             at = cfg.node_of(c)
-            if per_key in repo.callee_quals(c, d):
+            if is_per_key_call(c, d):
                 yield True, c, ""
                 continue
             if isinstance(c.func, ast.Subscript) and unparse(c.func.value) == dct and unparse(c.func.slice) == f"{el}.name":
